@@ -111,22 +111,18 @@ def run_exec(ctx, kind, cap, prog, mode, bound, runs, atoms, tag):
     return out, vp.last_json_line(so)
 
 
-def validate_api(ctx, kind, trace, summ):
-    v = vp.tlc_trace("lockfree", "IndexSetLinTrace", trace)
-    vp.record_tlc(ctx, f"IndexSetLinTrace[{os.path.basename(trace)}]", v.res, count=False)
-    if v.accepted:
-        ctx.traces_validated += summ["executions"]
-        return
-    recs = vp.read_ndjson(trace)
-    run, rel = vp.run_containing(recs, v.pos) if v.pos else (recs[:60], 0)
-    end = [r for r in run if r.get("k") == "end"]
-    ctx.report(vp.Violation(
-        f"{kind}: history of the real index set is not explainable by IndexSetLin "
-        f"(record #{rel} of the run: {v.record}; invariant: {v.invariant})",
-        replay={"kind": kind, "summary": summ, "run": [r for r in run if r.get("k") not in ("atom", "aux")],
-                "first_unexplained": v.record, "invariant": v.invariant,
-                "schedule": end[0]["sched"] if end else None},
-        signature=f"lin:{kind}"))
+def on_reject(ctx):
+    def f(meta, v, run, rel):
+        kind, summ = meta if meta else ("?", {})
+        end = [r for r in run if r.get("k") == "end"]
+        ctx.report(vp.Violation(
+            f"{kind}: history of the real index set is not explainable by IndexSetLin "
+            f"(record #{rel} of the run: {v.record}; invariant: {v.invariant})",
+            replay={"kind": kind, "summary": summ, "run": [r for r in run if r.get("k") not in ("atom", "aux")],
+                    "first_unexplained": v.record, "invariant": v.invariant,
+                    "schedule": end[0]["sched"] if end else None},
+            signature=f"lin:{kind}"))
+    return f
 
 
 def run(ctx):
@@ -146,8 +142,9 @@ def run(ctx):
         progs["plain"] += [(3, [[A, A, R, R], [A, RL, A], [A, R]], 2), (2, [[A, R, A, R], [A, R, A, RL]], 3)]
         progs["robust"] += [(3, [[A, A, R], [A, RL, A], [A, R]], 2), (2, [[A, A], [A, RL, A], ["recl0", A]], 3)]
         progs["pool"] += [(3, [[A, A, R], [A, R, A], [A, R]], 2)]
-    limit = 1200 if q else 30000
+    limit = 400 if q else 30000
     tab_final, drift_any = {}, False
+    bv = vp.BatchValidator(ctx, "lockfree", "IndexSetLinTrace", on_reject(ctx))
     for kind, lst in progs.items():
         for n, (cap, prog, bound) in enumerate(lst):
             tag = f"{kind}-{n}"
@@ -165,13 +162,14 @@ def run(ctx):
                 recs2, tab, drift = prepare_plain(recs)
                 api = ctx.path("traces", f"{tag}-api.ndjson")
                 vp.write_ndjson(api, [r for r in recs2 if r.get("k") not in ("atom", "aux")])
-                validate_api(ctx, kind, api, summ)
+                bv.add(api, (kind, summ), summ["executions"])
                 if drift or (tab_final and tab != tab_final):
                     drift_any = True
                     print(f"DRIFT: plain index set: access structure differs from UisImpl.tla: {drift[:3]}")
                     ctx.note(f"drift: {drift[:4]}")
                 else:
                     tab_final = tab
+                if not (drift or drift_any) and (not q or n < 2):
                     vp.write_ndjson(trace, recs2)
                     name = f"TR_{n}"
                     d = gen_module(ctx, name, "UisImplTrace", cap, 65536, prog, tab, True,
@@ -183,7 +181,7 @@ def run(ctx):
                         print(f"DRIFT: atomic-level trace of UniqueIndexSet not explained by UisImpl.tla at {v.pos}: {v.record}")
                         ctx.note(f"atomic-level drift at {v.pos}: {v.record}")
             else:
-                validate_api(ctx, kind, trace, summ)
+                bv.add(trace, (kind, summ), summ["executions"])
             if len(ctx.samples) < 4:
                 r0 = vp.split_runs(recs)[-1]
                 ctx.sample({"kind": kind, "cap": cap, "prog": prog,
@@ -192,9 +190,10 @@ def run(ctx):
         # seeded random schedules of a longer program
         cap = 2
         prog = [[A, A, R, A, R, R], [A, R, A, RL if kind != "pool" else R, A], [A, R, A, R]]
-        trace, summ = run_exec(ctx, kind, cap, prog, "random", 0, 150 if q else 3000, False, f"{kind}-random")
+        trace, summ = run_exec(ctx, kind, cap, prog, "random", 0, 60 if q else 3000, False, f"{kind}-random")
         ctx.evaluations += summ["executions"]
-        validate_api(ctx, kind, trace, summ)
+        bv.add(trace, (kind, summ), summ["executions"])
+    bv.run()
 
     # ---- TLC on the implementation-shaped model with the extracted orderings (V2)
     mcs = [(2, [[A, R, A], [A, R, A]]), (2, [[A, A, R, R], [A, RL]]), (1, [[A, R, A], [A, RL]]),
